@@ -26,7 +26,7 @@ fn pick(s: &'static str) -> BS<char> {
 
 /// A Unicode alphabetic scalar (non-ASCII).
 pub fn unicode_alpha() -> BS<char> {
-    prop_oneof![
+    let by_range = prop_oneof![
         3 => 0x00C0u32..=0x00FF,
         3 => 0x0370u32..=0x03FF,
         2 => 0x0400u32..=0x04FF,
@@ -39,8 +39,28 @@ pub fn unicode_alpha() -> BS<char> {
     .prop_map(|u| match char::from_u32(u) {
         Some(c) if c.is_alphabetic() => c,
         _ => 'λ',
-    })
+    });
+    // uniformly over every alphabetic code point, and over the alphabetic ones
+    // that are also numeric (letter numbers: Roman numerals, 〇, ...), which a
+    // rule written with is_numeric() or is_alphanumeric() treats differently
+    let all = alphabetic_table();
+    let (na, nn) = (all.0.len(), all.1.len());
+    prop_oneof![
+        6 => by_range,
+        3 => (0..na).prop_map(move |i| alphabetic_table().0[i]),
+        2 => (0..nn).prop_map(move |i| alphabetic_table().1[i]),
+    ]
     .boxed()
+}
+
+/// (all non-ASCII alphabetic code points, those of them that are numeric too)
+fn alphabetic_table() -> &'static (Vec<char>, Vec<char>) {
+    static T: std::sync::OnceLock<(Vec<char>, Vec<char>)> = std::sync::OnceLock::new();
+    T.get_or_init(|| {
+        let all: Vec<char> = (0x80u32..=0x10FFFF).filter_map(char::from_u32).filter(|c| c.is_alphabetic()).collect();
+        let num: Vec<char> = all.iter().copied().filter(|c| c.is_numeric()).collect();
+        (all, num)
+    })
 }
 
 /// A Unicode numeric (non-ASCII) scalar, for subsequents.
